@@ -18,6 +18,8 @@ const P: &str = "data\\present_p.txt";
 const Q: &str = "data\\present_q.bin";
 const M: &str = "data\\missing_m.txt";
 const X: &str = "data\\patch_x.bin"; // patch-flagged entry: exists, read fails
+const PU: &str = "DATA/PRESENT_P.TXT"; // p under another spelling (ASCII case, slash direction): a sequential read finds it
+const LF: &str = "(listfile)"; // internal file: readable by name, never part of the listing
 
 #[derive(Clone, Copy, Debug, PartialEq)]
 enum Api {
@@ -55,7 +57,7 @@ struct Main {
     bound: usize,
 }
 fn request_lists(maxlen: usize) -> Vec<Vec<&'static str>> {
-    let pool = [P, Q, P, M, X]; // duplicate p on purpose
+    let pool = [P, Q, P, M, X, PU, LF]; // duplicate p on purpose
     let mut out: Vec<Vec<&'static str>> = vec![vec![]];
     let mut seen: BTreeSet<Vec<&'static str>> = BTreeSet::new();
     // all ordered selections (without reusing a pool position) of length 1..=maxlen
@@ -177,7 +179,7 @@ impl Space for Main {
     }
     fn describe(&self, i: u64) -> Value {
         let (api, l, skip, w) = &self.cases[i as usize];
-        let names: Vec<&str> = l.iter().map(|n| match *n { P => "p", Q => "q", M => "missing", X => "unreadable", o => o }).collect();
+        let names: Vec<&str> = l.iter().map(|n| match *n { P => "p", Q => "q", M => "missing", X => "unreadable", PU => "p-other-spelling", LF => "(listfile)", o => o }).collect();
         json!({"api": format!("{api:?}"), "request": names, "skip_errors": skip, "workers": w, "preemption_bound": self.bound})
     }
     fn case_timeout(&self) -> u64 {
@@ -429,7 +431,7 @@ fn main() {
             c.extra_cov.insert("configuration_sweep".into(), v["coverage"].clone());
         }
     }
-    c.rule = "case = (parallel entry point, request list drawn from {p, q, duplicate p, missing, unreadable} in every order up to length 3 (quick) / 4 (thorough), skip_errors, workers 1..3 (thorough: 1..4)); each case runs under loom with the rayon stand-in: every interleaving of task claim/start/finish up to the preemption bound is executed on the real code and compared slot by slot with sequential Archive::read_file; the set of results over all schedules must be a singleton. states = distinct task start/finish orders observed (summed over cases), transitions = schedules executed.".into();
+    c.rule = "case = (parallel entry point, request list drawn from {p, q, duplicate p, missing, unreadable, p under another case+slash spelling, (listfile)} in every order up to length 3 (quick) / 4 (thorough), skip_errors, workers 1..3 (thorough: 1..4)); each case runs under loom with the rayon stand-in: every interleaving of task claim/start/finish up to the preemption bound is executed on the real code and compared slot by slot with sequential Archive::read_file; the set of results over all schedules must be a singleton. states = distinct task start/finish orders observed (summed over cases), transitions = schedules executed.".into();
     c.assume("rayon honours its documented contract (order-preserving indexed collect, some-error Result collect); the stand-in in /verif/harness-sched/rayon models that contract on loom threads");
     c.assume("with <= 4 items in flight every start/finish order that 32 OS threads could produce is produced by <= 3-4 workers; loom caps a model at 5 threads");
     c.assume("code between two loom operations runs atomically: data races inside a task body are outside this exploration (covered only by the free-running configuration sweep)");
